@@ -1203,6 +1203,16 @@ def _single_exit(stmts, result):
             new = ast.copy_location(ast.If(test=st.test, body=body or [ast.Pass()], orelse=orelse), st)
             out.append(new)
             return out
+        if isinstance(st, ast.Try) and i == len(stmts) - 1 and not st.finalbody and not st.orelse and st.body and isinstance(st.body[-1], ast.Return) \
+                and not any(_contains_return(b) for b in st.body[:-1]) and st.handlers \
+                and all(h.body and isinstance(h.body[-1], ast.Raise) and not any(_contains_return(b) for b in h.body) for h in st.handlers):
+            # the last statement: `try: ...; return E  except X: ... raise Y` -- the value is assigned inside the try (so E is still
+            # evaluated under the handlers), nothing follows
+            r = st.body[-1]
+            val = r.value if r.value is not None else ast.Constant(value=None)
+            nb = list(st.body[:-1]) + [ast.copy_location(ast.Assign(targets=[ast.Name(id=result, ctx=ast.Store())], value=val), r)]
+            out.append(ast.copy_location(ast.Try(body=nb, handlers=st.handlers, orelse=[], finalbody=[]), st))
+            return out
         if _contains_return(st):
             raise _NoInline("return inside a loop / try / with")
         out.append(st)
@@ -1438,10 +1448,31 @@ def inline_unknown_helpers(tree, modname, foreign=None):
                                     call = x
                                     where = "nested"
                                 break
-                    if call is None or any(k.arg is None for k in call.keywords) or any(isinstance(a, ast.Starred) for a in call.args):
+                    if call is None or any(k.arg is None for k in call.keywords):
+                        i += 1
+                        continue
+                    starred = [a for a in call.args if isinstance(a, ast.Starred)]
+                    if starred and not (len(starred) == 1 and call.args[-1] is starred[0] and isinstance(starred[0].value, ast.Name) and not call.keywords):
                         i += 1
                         continue
                     fdef, args = callee_of(call, cls)
+                    if fdef is not None and starred:
+                        # f(a, *T) with T a name and f taking a fixed number of parameters without defaults: T supplies exactly the
+                        # remaining ones (anything else is a TypeError before the body runs), so they are T[0], T[1], ...
+                        if fdef.args.vararg or fdef.args.defaults or fdef.args.kwonlyargs or fdef.args.kwarg:
+                            i += 1
+                            continue
+                        n_par = len(fdef.args.args)
+                        fixed = args[:-1]
+                        n_missing = n_par - len(fixed)
+                        if n_missing < 1 or n_missing > 6:
+                            i += 1
+                            continue
+                        tname = starred[0].value.id
+                        args = list(fixed) + [ast.Subscript(value=ast.Name(id=tname, ctx=ast.Load()), slice=ast.Constant(value=k_), ctx=ast.Load()) for k_ in range(n_missing)]
+                        for a_ in args[len(fixed):]:
+                            ast.copy_location(a_, call)
+                            ast.fix_missing_locations(a_)
                     if fdef is not None and call.keywords and fdef.args.vararg:
                         i += 1
                         continue
